@@ -160,6 +160,53 @@ fn local_case<B: Backend>(cx: &mut Ctx, rng: &mut Prng, thorough: bool) {
     }
 }
 
+/// v3.local with the derived counter block substituted through the verification hook (both backends)
+fn local_iv_case<B: Backend>(cx: &mut Ctx, rng: &mut Prng) {
+    let c = cx.case;
+    if B::VER != 3 {
+        return;
+    }
+    let fam = eval::fam_against(B::NAME);
+    let (ml, fl, il) = (c["mlen"].as_u64().unwrap() as usize, c["flen"].as_u64().unwrap() as usize, c["ilen"].as_u64().unwrap() as usize);
+    if ml < 17 || ml > 300 {
+        return; // the counter only matters from the second block on
+    }
+    let keyb = rng.bytes(32);
+    let key: LocalKey<B> = key_from_bytes(&keyb).unwrap();
+    let (m, f, i) = (rng.bytes(ml), rng.bytes(fl), rng.bytes(il));
+    let hdr = dt::header::<B, Local>();
+    for (name, iv) in special_nonces(16, rng) {
+        let n = rng.bytes(32);
+        let mut inp: Inputs = HashMap::new();
+        inp.insert("key".into(), keyb.clone());
+        inp.insert("m".into(), m.clone());
+        inp.insert("f".into(), f.clone());
+        inp.insert("i".into(), i.clone());
+        inp.insert("nonce".into(), n.clone());
+        inp.insert("iv".into(), iv.clone());
+        let want = ev(fam, &c["payload_iv"], &inp);
+        paseto_core::verif::set_iv_override(Some(iv.clone().try_into().unwrap()));
+        let tok = UnsealedToken::<B::V, Local, Raw>::new(Raw(m.clone())).with_footer(f.clone()).dangerous_seal_with_nonce(&key, &i, n.clone());
+        let back = want.as_ref().ok().map(|p| {
+            let text = dt::token_string::<B, Local>(p, &f);
+            catch_unwind(AssertUnwindSafe(|| SealedToken::<B::V, Local, Raw, Vec<u8>>::from_str(&text).and_then(|t| t.unseal(&key, &i, &NoValidation::dangerous_no_validation()))))
+        });
+        paseto_core::verif::set_iv_override(None);
+        match tok {
+            Ok(t) => {
+                let (p, _) = dt::split_token(&t.to_string(), hdr.len()).unwrap_or_default();
+                cx.equal("forward", &p, &want, json!({"nonce": name, "hook": "derived-iv"}));
+            }
+            Err(e) => cx.emit("forward", "equal", false, json!({"nonce": name, "hook": "derived-iv", "real_error": errname(&e)})),
+        }
+        match back {
+            Some(Ok(Ok(u))) => cx.emit("reference", "accepted-same", u.claims.0 == m, json!({"nonce": name, "hook": "derived-iv", "accepted": true})),
+            Some(Ok(Err(e))) => cx.emit("reference", "accepted-same", false, json!({"nonce": name, "hook": "derived-iv", "accepted": false, "real_error": errname(&e)})),
+            _ => cx.emit("reference", "accepted-same", false, json!({"nonce": name, "hook": "derived-iv", "panic_or_evaluator_error": true})),
+        }
+    }
+}
+
 // ------------------------------------------------------------------------------------------- public
 fn sig_verify(fam: Fam, ver: u32, pk: &[u8], msg: &[u8], sig: &[u8]) -> bool {
     match ver {
@@ -346,6 +393,38 @@ fn wrap_case<B: Backend>(cx: &mut Ctx, rng: &mut Prng, pairs: &[keys::Pair]) {
             }
         }
     }
+    // PIE k1/k3: the derived counter block substituted through the verification hook
+    if kind == "pie" && (B::VER == 1 || B::VER == 3) {
+        for (name, iv) in special_nonces(16, rng) {
+            let mut inp = base.clone();
+            inp.insert("iv".into(), iv.clone());
+            paseto_core::verif::set_iv_override(Some(iv.clone().try_into().unwrap()));
+            let r = wrap_generic::<B>(kind, ktype, &ptk, &with, cost);
+            // and a spec-built blob for a fresh nonce must unwrap to the key under the same override
+            let n2 = rng.bytes(32);
+            let mut inp2 = inp.clone();
+            inp2.insert("n".into(), n2);
+            let refblob = ev(fam, &c["data_iv"], &inp2);
+            let back = refblob.as_ref().ok().map(|b| unwrap_generic::<B>(kind, ktype, &format!("{hdr}{}", crate::b64::enc(b)), &with));
+            paseto_core::verif::set_iv_override(None);
+            match r {
+                Ok(text) => {
+                    let blob = text.strip_prefix(&hdr).and_then(crate::b64::dec).unwrap_or_default();
+                    let at = c["nonce_at"].as_u64().unwrap() as usize;
+                    if let Some(n) = blob.get(at..at + 32) {
+                        inp.insert("n".into(), n.to_vec());
+                        cx.equal("backward", &blob, &ev(fam, &c["data_iv"], &inp), json!({"nonce": name, "hook": "derived-iv"}));
+                    }
+                }
+                Err(e) => cx.emit("backward", "equal", false, json!({"nonce": name, "hook": "derived-iv", "real_error": e})),
+            }
+            match back {
+                Some(Ok(k)) => cx.emit("reference", "accepted-same", k == ptk, json!({"nonce": name, "hook": "derived-iv", "accepted": true})),
+                Some(Err(e)) => cx.emit("reference", "accepted-same", false, json!({"nonce": name, "hook": "derived-iv", "accepted": false, "real_error": e})),
+                None => cx.emit("reference", "accepted-same", false, json!({"nonce": name, "hook": "derived-iv", "evaluator_error": true})),
+            }
+        }
+    }
     // reference blobs for chosen embedded nonces (incl. counters that carry past 64 bits)
     let nl = if kind == "pie" { 32 } else { c["nonce_len"].as_u64().unwrap() as usize };
     for (name, n) in special_nonces(nl, rng) {
@@ -387,7 +466,7 @@ fn pke_case<B: Backend>(cx: &mut Ctx, rng: &mut Prng, recipients: &[keys::Pair])
             // the library seals; the receiver-side term, fed with the ephemeral value cut from the blob, must reproduce it
             let lk: LocalKey<B> = key_from_bytes(&pdk).unwrap();
             let pk: PkePub<B> = key_from_bytes(&r.public).unwrap();
-            match catch_unwind(AssertUnwindSafe(|| lk.seal(&pk).map(|s| s.to_string()))) {
+            match catch_unwind(AssertUnwindSafe(|| lk.clone().seal(&pk).map(|s| s.to_string()))) {
                 Ok(Ok(text)) => {
                     let blob = text.strip_prefix(&hdr).and_then(crate::b64::dec).unwrap_or_default();
                     let want_len = c["len"].as_u64().unwrap() as usize;
@@ -404,6 +483,34 @@ fn pke_case<B: Backend>(cx: &mut Ctx, rng: &mut Prng, recipients: &[keys::Pair])
                 }
                 Ok(Err(e)) => cx.emit("backward", "equal", false, json!({"real_error": errname(&e)})),
                 Err(_) => cx.emit("backward", "equal", false, json!({"panic": true})),
+            }
+            // k1/k3: the derived counter block substituted through the verification hook (seal, then unseal)
+            if B::VER == 1 || B::VER == 3 {
+                for (name, iv) in special_nonces(16, rng).into_iter().take(if B::VER == 1 { 2 } else { 5 }) {
+                    paseto_core::verif::set_iv_override(Some(iv.clone().try_into().unwrap()));
+                    let sealed = catch_unwind(AssertUnwindSafe(|| lk.clone().seal(&pk).map(|s| s.to_string())));
+                    let un = match &sealed {
+                        Ok(Ok(text)) => {
+                            let sk: Key<B::V, PkeSecret> = key_from_bytes(&r.secret).unwrap();
+                            catch_unwind(AssertUnwindSafe(|| SealedKey::<B::V>::from_str(text).and_then(|s| s.unseal(&sk)).map(|k| key_bytes(&k)))).ok().and_then(|x| x.ok())
+                        }
+                        _ => None,
+                    };
+                    paseto_core::verif::set_iv_override(None);
+                    if let Ok(Ok(text)) = sealed {
+                        let blob = text.strip_prefix(&hdr).and_then(crate::b64::dec).unwrap_or_default();
+                        let mut i3 = inp.clone();
+                        i3.insert("iv".into(), iv.clone());
+                        match B::VER {
+                            1 => i3.insert("c".into(), blob.get(80..).unwrap_or(&[]).to_vec()),
+                            _ => i3.insert("epk".into(), blob.get(48..97).unwrap_or(&[]).to_vec()),
+                        };
+                        cx.equal("backward", &blob, &ev(fam, &c["data_iv"], &i3), json!({"nonce": name, "hook": "derived-iv"}));
+                        cx.emit("reference", "accepted-same", un.as_deref() == Some(&pdk[..]), json!({"nonce": name, "hook": "derived-iv", "what": "unseal under the same counter block"}));
+                    } else {
+                        cx.emit("backward", "equal", false, json!({"nonce": name, "hook": "derived-iv", "real_error": "seal failed"}));
+                    }
+                }
             }
         } else {
             // the evaluator seals with its own ephemeral secret; the library must unseal to the same key
@@ -518,7 +625,10 @@ pub fn run(rec: &mut Recorder, cases_path: &str, thorough: bool, seed: u64, kind
             }
             let mut cx = Ctx { rec, case, be: B::NAME, n: 0 };
             match kind {
-                "local" => local_case::<B>(&mut cx, &mut rng, thorough),
+                "local" => {
+                    local_case::<B>(&mut cx, &mut rng, thorough);
+                    local_iv_case::<B>(&mut cx, &mut rng);
+                }
                 "public" => {
                     // RSA signing is slow: a third of the v1 cases in quick
                     if B::VER != 1 || thorough || (case["mlen"].as_u64().unwrap() + case["flen"].as_u64().unwrap()) % 3 == 0 {
